@@ -823,7 +823,37 @@ class Concrete(object):
         self.mach.coarse_regs = False
         self.mach.dmax = 4096
         self.mach.input_writable = True
-        self.mach.harness |= {'OUT', 'OUTEND', 'FIRSTP', 'LASTP'}
+        self.mach.harness |= {'OUT', 'OUTEND', 'FIRSTP', 'LASTP', 'CW', 'CR', 'IP4', 'IP6', 'SEG0', 'SEG1', 'SEG2'}
+        self.mach.literals = True
+        self.mach.summaries['memcpy'] = self.memcpy
+        self.csize = 1 if suf == 'A' else 4
+        self.text_reads = 0
+
+    def memcpy(self, m, st, ins, args):
+        """element-wise copy of characters into a harness buffer"""
+        dst, src, n = args
+        if dst[0] != 'a' or n[0] != 'i' or not dst[2] or not isinstance(dst[2][-1], int):
+            return sum_memcpy(m, st, ins, args)
+        cnt = n[1] // self.csize
+        if n[1] % self.csize:
+            raise Imprecise('memcpy of %d bytes is not a whole number of characters at %s' % (n[1], fmt_loc(ins.loc)))
+        base = dst[2][:-1]
+        k0 = dst[2][-1]
+        for j in range(cnt):
+            if src[0] == 'p':
+                v = ('c', m.sym_at(st, src[1] + j, ins.loc))
+            elif src[0] == 'lit':
+                if j >= len(src[1]):
+                    raise Finding('no-over-read', 'literal-overread', ins.loc, 'memcpy reads past the end of a string literal')
+                v = ('i', ord(src[1][j]))
+            elif src[0] == 'a' and src[2] and isinstance(src[2][-1], int):
+                v = st.env.get((src[1], src[2][:-1] + (src[2][-1] + j,)), TOP)
+            elif src == SAFE and cnt == 0:
+                break
+            else:
+                raise Imprecise('memcpy from %r at %s' % (src, fmt_loc(ins.loc)))
+            st.env[(dst[1], base + (k0 + j,))] = v
+        return dst
 
     def int_of(self, v):
         """integer value of a machine value holding a character or an integer"""
